@@ -140,7 +140,7 @@ fn run_pcase(report: &mut Report, p: &PCase, stallcheck: bool) -> bool {
     };
     let mut spec = c11::spec_of(c);
     spec.gates = p.gates.iter().map(|(pnt, ch, d)| Gate { point: *pnt, chain: *ch, draw: *d, remaining: 1 }).collect();
-    let log = match par::run_watched(&spec, Duration::from_secs(90)) {
+    let log = match par::run_watched(&spec, Duration::from_secs(30)) {
         Watched::Done(l) => l,
         Watched::Stalled { cpu_idle } => {
             if stallcheck {
@@ -149,7 +149,7 @@ fn run_pcase(report: &mut Report, p: &PCase, stallcheck: bool) -> bool {
             if cpu_idle {
                 let (all, any) = c11::reproduce_stall("C12", &replay);
                 if all {
-                    report.violation(sig("deadlock"), "a client call did not return within 90 s with an idle process; reproduced in two fresh processes".to_string(), replay);
+                    report.violation(sig("deadlock"), "a client call did not return within 30 s with an idle process; reproduced in a fresh process".to_string(), replay);
                 } else {
                     report.inconclusive(if any { "stall reproduced only once" } else { "stall not reproduced" });
                 }
@@ -181,6 +181,15 @@ fn run_pcase(report: &mut Report, p: &PCase, stallcheck: bool) -> bool {
     for (ch, recs) in &log.records {
         let after = recs.iter().filter(|r| r.clock > t_pause_ret && r.clock < t_resume_call).count();
         max_after = max_after.max(after);
+        // a chain that had not entered its draw loop when pause() returned must not start drawing while paused
+        let in_loop = log.events.iter().any(|e| e.chain == *ch as i64 && e.point == pt::CHAIN_LOOP_TOP && e.clock < t_pause_ret);
+        if !in_loop && after > queued {
+            report.violation(
+                sig("unstarted_chain_drew_while_paused"),
+                format!("chain {ch} had not entered its draw loop when pause() returned but recorded {after} draws before resume() (queued commands: {queued}); gates {:?}", p.gates),
+                replay.clone(),
+            );
+        }
         if after > bound {
             report.violation(
                 sig("records_after_pause_returned"),
@@ -246,13 +255,20 @@ pub fn run(args: &Args, report: &mut Report) {
     sched::install();
     let seed = args.seed ^ 0xC12;
     if let Some(r) = &args.replay {
-        run_pcase(report, &pcase_from_json(r), args.mode.as_deref() == Some("stallcheck"));
+        let stallcheck = args.mode.as_deref() == Some("stallcheck");
+        for _ in 0..(if stallcheck { 40 } else { 1 }) {
+            run_pcase(report, &pcase_from_json(r), stallcheck);
+        }
         return;
     }
     let n_sys = report.size(168, 4200);
     let n_rand = report.size(120, 3000);
     for i in 0..(n_sys + n_rand) {
         let p = gen_pcase(seed, i, i < n_sys);
+        if crate::c11::too_many_hangs(report) {
+            report.inconclusive("remaining cases not run after repeated unfinished runs");
+            break;
+        }
         if !run_pcase(report, &p, false) {
             report.inconclusive("remaining cases not run after a stalled run");
             break;
